@@ -25,6 +25,9 @@ structure Machine (σ : Type) where
   cmpVal   : String → Bool
   /-- a hook point the harness recorded without yielding there (`chk t tag v`): `some why` = the model is not where the code is -/
   check    : σ → Nat → String → Nat → Option String := fun _ _ _ _ => none
+  /-- a yield point of a layer BELOW the model's granularity that the model knows how to absorb (`some s'`), e.g. the steps of the pool's
+      free-list ring while a consumer releases a payload handle -/
+  foreign  : σ → Nat → String → Nat → Option σ := fun _ _ _ _ => none
 
 structure AnyMachine where
   σ : Type
@@ -42,6 +45,7 @@ def observe (a : AnyMachine) (k : String) := a.m.observe a.s k
 def describe (a : AnyMachine) (t : Nat) := a.m.describe a.s t
 def cmpVal (a : AnyMachine) (tag : String) := a.m.cmpVal tag
 def check (a : AnyMachine) (t : Nat) (tag : String) (v : Nat) := a.m.check a.s t tag v
+def foreign (a : AnyMachine) (t : Nat) (tag : String) (v : Nat) : Option AnyMachine := (a.m.foreign a.s t tag v).map fun s' => { a with s := s' }
 end AnyMachine
 
 def showList (l : List Nat) : String := " ".intercalate (l.map toString)
@@ -276,6 +280,9 @@ structure WakeD where
   /-- `gran=mid`: the publication CAS (`am.p.publish`) and the length measurement (`am.p.len`) of the two-phase ring are yield
       points of the recorded run; otherwise the driver performs them right at the call -/
   mid : Bool := false
+  /-- `mid` granularity, pooled channels: how many slot ids were published to the pool's FREE-LIST ring so far (it starts full: `N`); a
+      deallocation's publication CAS (hook `am.p.publish` with the claimed sequence number) succeeds exactly when the two are equal -/
+  ftail : Nat := 0
 
 /-- the channel's queue is the two-phase ring `AtomicMove` -/
 def wakeTwoPhase (r : Mutiny.Wake.Rule) : Bool := r.twoPhase
@@ -320,7 +327,11 @@ def wakeMachine : Machine WakeD where
                              else some { d with s := Wake.apply s (.resume t) }
                          | _ => none
     | "cancel", [j]   => if idle && nat j < s.k then some { d with s := Wake.apply s (.cancel t (nat j)) } else none
-    | "release", []   => if !s.zc then some d else if s.held > 0 then some { d with s := Wake.apply s .release } else none
+    | "release", []   =>
+        if !s.zc then some d
+        -- at `mid` granularity the slot is free again when the free list's publication has happened (`foreign` below)
+        else if d.mid && wakeTwoPhase s.rule then some d
+        else if s.held > 0 then some { d with s := Wake.apply s .release } else none
     | "drop", [j]     =>
         let j := nat j
         if t == 100 + j && j < s.k && s.sloc j == .ended && !d.polling.contains j then some { d with s := Wake.apply s (.dropS j), polling := j :: d.polling } else none
@@ -361,6 +372,26 @@ def wakeMachine : Machine WakeD where
     if t ≥ 100 then reprStr (d.s.sloc (t - 100)) ++ s!" q={d.s.q} waker={reprStr (d.s.waker (t - 100))} tok={d.s.tok (t - 100)}"
     else reprStr (d.s.thr t) ++ s!" q={d.s.q} resv={d.s.resv} held={d.s.held}"
   cmpVal tag := tag != "sync.spin"
+  -- a consumer thread releasing a payload handle of a pooled channel: `free_list.publish_movable(id)` -- its publication CAS (may
+  -- spin behind another release) and its length measurement; the slot counts as free once the publication has happened
+  foreign d t tag v :=
+    -- (whichever thread drops the last handle of a pooled payload performs the deallocation: a consumer releasing it, the producer
+    --  dropping its own OgreArc after the fan-out, the finalizer; it is the model's own publication only while the thread is at `pClm`/`pSmp`)
+    let own := if t ≥ 100 then false else match Mutiny.Wake.tagOfP (d.s.thr t) with
+      | some (mt, _) => mt == "am.p.publish" || mt == "am.p.len"
+      | none => false
+    if d.mid && d.s.zc && wakeTwoPhase d.s.rule && !own then
+      -- (thread 90 is the harness's finalizer: after the modelled part of the run it drains the channel itself and drops what it finds)
+      if t == 90 then (if tag == "am.p.publish" then some { d with ftail := if v == d.ftail then d.ftail + 1 else d.ftail }
+                       else if tag == "am.p.len" then some d else none) else
+      if tag == "am.p.publish" then
+        -- in claim order: the CAS that follows this hook succeeds iff the free list's `tail` is the claimed number; the slot is
+        -- allocatable again from that instant
+        if v == d.ftail then (if d.s.held > 0 then some { d with s := Mutiny.Wake.apply d.s .release, ftail := d.ftail + 1 } else none)
+        else some d
+      else if tag == "am.p.len" then some d
+      else none
+    else none
 
 /-! ### M6+M7 Multi -/
 open Mutiny in
@@ -523,7 +554,7 @@ def mkMachine (kv : List (String × String)) : Option AnyMachine :=
         | some "m1" => .m1
         | _ => .fs
       some { σ := _, m := wakeMachine, s := { s := Mutiny.Wake.init n mx k rule ((lookup kv "zc") == some "1"), polling := [],
-                                              mid := (lookup kv "gran") == some "mid" } }
+                                              mid := (lookup kv "gran") == some "mid", ftail := n } }
   | some "handles" => some { σ := _, m := handlesMachine, s := Mutiny.Handles.init n }
   | _ => none
 
